@@ -250,3 +250,30 @@ func VerifC07_HTTP1ClientDispatchSegmentation() {
 	verif.Assert(!c.closed && len(pool.availableClients) == 1, "the connection did not go back to the pool after a clean exchange")
 	verif.Cover("end")
 }
+
+// VerifC17_HostHeader (HTTP/1 half of host rewrite): the Host header of the
+// request sent to an HTTP/1.1 upstream is the rewritten authority when the
+// route set one, else the request's own host, else the upstream address.
+func VerifC17_HostHeader() {
+	ctx := variable.NewVariableContext(context.Background())
+	own := []string{"", "old.host"}[verif.Choose("request_host", 2)]
+	rew := []string{"", "new.host"}[verif.Choose("rewritten_authority", 2)]
+	variable.SetString(ctx, types.VarPath, "/p")
+	if own != "" {
+		variable.SetString(ctx, types.VarHost, own)
+	}
+	if rew != "" {
+		variable.SetString(ctx, types.VarIstioHeaderHost, rew)
+	}
+	h := mosnhttp.RequestHeader{RequestHeader: &fasthttp.RequestHeader{}}
+	FillRequestHeadersFromCtxVar(ctx, h, &net.TCPAddr{IP: net.IPv4(1, 1, 1, 1), Port: 1})
+	want := "1.1.1.1:1"
+	if own != "" {
+		want = own
+	}
+	if rew != "" {
+		want = rew
+	}
+	verif.Assert(string(h.Host()) == want, "the Host header sent upstream is not the rewritten authority / the request's host / the upstream address, in that order")
+	verif.Cover("end")
+}
